@@ -1651,7 +1651,8 @@ def run(res, tier, seed, proof):
             violation("a name inside a grouping did not resolve in the grouping's defining scope: %s" % "; ".join(bad[:3]),
                       dict(rep, mismatches=bad[:20]))
 
-    evaluations = len(lines_go) + len(ind_lines) + len(neg) + len(pos) + len(reg) + n_con + n_sn + stats.get("spec_inline_compared", 0)
+    n_heap = heap_leg(res, tier, rnd, violation, stats)
+    evaluations = n_heap + len(lines_go) + len(ind_lines) + len(neg) + len(pos) + len(reg) + n_con + n_sn + stats.get("spec_inline_compared", 0)
     cov = dict(
         evaluations=evaluations,
         distinct_nontrivial=stats["ok"] + stats["independence_single"] + stats["independence_double"],
@@ -1691,8 +1692,13 @@ def run(res, tier, seed, proof):
         "`constraints` is an oracle on the implementation alone (expected lists known to the generator by construction: the "
         "node's own statements, then the grouping statement's, then those of the uses statement that made the copy)",
         "refine and uses-augment are outside the modelled subset (the library ignores them)",
-        "object sharing and parent pointers do not exist in the pure model: they are checked on the implementation by the "
-        "pointer-level walker (treeviol) and by the two-run independence oracle (testing, not proof)",
+        "object sharing and parent pointers do not exist in the tree model (Model/Schema.v): for dup / add / merge they are proved on "
+        "the heap model (Model/Heap.v, theorems C06_heap_*) which heap_leg compares with the implementation's pointer graph on "
+        "hand-built entry graphs; for whole Process runs they are checked on the implementation by the pointer-level walker "
+        "(treeviol) and by the two-run independence oracle (testing, not proof)",
+        "heap model: ListAttr, Extra, Default and the RPCEntry record are by-value fields of a cell (= always copied); the harness "
+        "reports pointer identity of those records on the implementation, so a shared one shows as a difference; Type, Node, Exts, "
+        "Prefix and namespace are references shared between source and copy (only Type and namespace are represented, as tokens)",
         "the generator decides which grouping a uses denotes with its own statement of the scoping rules (innermost enclosing "
         "definition, else module level own statements, else import named by the prefix, else includes depth first); the "
         "rules are cross-checked by fixed cases with hand-written expected results",
@@ -1711,6 +1717,11 @@ def replay(rep, res):
     for k in ("ml_case", "ml_case_inlined"):
         if k in rep:
             print("%s: %s" % (k, lib.run_ml([rep[k]])[0][:2000]))
+    if rep.get("kind") == "heap":
+        g = run_go([rep["heap_case"]])[0]
+        m = lib.run_ml([rep["heap_case"]])[0]
+        print("impl : %s\nmodel: %s" % (g, m))
+        return 0 if g == m else 1
     if rep.get("kind") == "constraints":
         print(rep["text"])
         print("mismatches:", rep.get("mismatches"))
@@ -1729,3 +1740,157 @@ def replay(rep, res):
     else:
         rc = 1
     return rc
+
+
+# ------------------------------------------------------------------ pointer-level leg: heap model of dup / add / merge / FixChoice
+# coq/Model/Heap.v (theorems C06_heap_* for dup, add, merge; FixChoice is model + correspondence only) against (*Entry).dup /
+# add / merge / FixChoice on hand-built *yang.Entry graphs: both sides get
+# the SAME graph and the same operations and print the resulting pointer graph canonically (nodes numbered by first visit,
+# each with its parent's number; a node reachable twice -- e.g. a copy that still points into the source -- shows as a
+# link to an earlier number).  Command `heap` of harness/go/heap.go and harness/ml/cmd_heap.ml.
+HAVE_HEAP = (not lib.PARTS) or ("heap" in lib.PARTS)
+K_LEAF, K_DIR, K_CASE, K_CHOICE, K_IN, K_OUT = 0, 1, 4, 5, 6, 8
+
+
+def heap_gen_tree(rnd, cells, parent, name, depth, shape):
+    """appends a random entry tree to cells (list of dicts), returns the id of its root"""
+    i = len(cells)
+    c = dict(parent=parent, name=name, kind=K_DIR, la=None, ty=None, kids=[], inp=None, out=None)
+    cells.append(c)
+    r = rnd.random()
+    if depth <= 0 or r < 0.3:
+        c["kind"] = K_LEAF
+        c["ty"] = rnd.randrange(3)
+        if rnd.random() < 0.35:
+            c["la"] = (rnd.randrange(3), rnd.choice([1, 7, MAXU64]))
+            shape["leaflist"] += 1
+        else:
+            shape["leaf"] += 1
+        return i
+    if r < 0.6 and r >= 0.45:
+        # choice: children are cases (kind 4) or shorthand nodes that FixChoice wraps
+        c["kind"] = K_CHOICE
+        shape["choice"] += 1
+        for k in range(rnd.randrange(0, 4)):
+            knm = rnd.choice("abcde") + str(k)
+            j = heap_gen_tree(rnd, cells, i, knm, depth - 1, shape)
+            if cells[j]["kind"] == K_DIR and cells[j]["inp"] is None and cells[j]["out"] is None and rnd.random() < 0.6:
+                cells[j]["kind"] = K_CASE
+                shape["case"] += 1
+            else:
+                shape["shorthand_case"] += 1
+            c["kids"].append((knm, j))
+        rnd.shuffle(c["kids"])
+        return i
+    if r < 0.45:
+        # rpc / action: a directory entry with input and/or output, each with children of its own
+        shape["rpc"] += 1
+        for fld, kind, nm in (("inp", K_IN, "input"), ("out", K_OUT, "output")):
+            if rnd.random() < 0.8:
+                j = len(cells)
+                io = dict(parent=i, name=nm, kind=kind, la=None, ty=None, kids=[], inp=None, out=None)
+                cells.append(io)
+                for k in range(rnd.randrange(0, 3)):
+                    knm = rnd.choice("abcde") + str(k)
+                    io["kids"].append((knm, heap_gen_tree(rnd, cells, j, knm, depth - 1, shape)))
+                rnd.shuffle(io["kids"])
+                c[fld] = j
+                shape["rpc_io_children"] += len(io["kids"])
+        return i
+    if r < 0.78:
+        c["la"] = (rnd.randrange(3), rnd.choice([2, 9, MAXU64]))
+        shape["list"] += 1
+    else:
+        shape["container"] += 1
+    for k in range(rnd.randrange(0, 4)):
+        knm = rnd.choice("abcde") + str(k)
+        c["kids"].append((knm, heap_gen_tree(rnd, cells, i, knm, depth - 1, shape)))
+    rnd.shuffle(c["kids"])
+    return i
+
+
+def heap_enc(cells, ops, roots):
+    def o(x):
+        return "~" if x is None else str(x)
+    t = ["heap", str(len(cells))]
+    for c in cells:
+        t += [o(c["parent"]), (c["name"].encode().hex() or "-"), str(c["kind"]),
+              "~" if c["la"] is None else "%d:%d" % c["la"], o(c["ty"]), "~", str(len(c["kids"]))]
+        for k, v in c["kids"]:
+            t += [k.encode().hex() or "-", str(v)]
+        t += [o(c["inp"]), o(c["out"])]
+    t.append(str(len(ops)))
+    for op in ops:
+        t += [str(x) for x in op]
+    t.append(str(len(roots)))
+    t += [str(r) for r in roots]
+    return " ".join(t)
+
+
+def heap_case(rnd, shape):
+    """a grouping-like source tree g, a target tree tg, and a random script of dup / merge / add"""
+    cells = []
+    g = heap_gen_tree(rnd, cells, None, "g", rnd.randrange(1, 4), shape)
+    while cells[g]["kind"] == K_LEAF or (not cells[g]["kids"] and rnd.random() < 0.7):
+        del cells[:]
+        g = heap_gen_tree(rnd, cells, None, "g", rnd.randrange(1, 4), shape)
+    tg = heap_gen_tree(rnd, cells, None, "t", rnd.randrange(0, 3), shape)
+    if cells[tg]["kind"] == K_LEAF or cells[tg]["inp"] is not None or cells[tg]["out"] is not None:
+        tg = len(cells)
+        cells.append(dict(parent=None, name="t", kind=rnd.choice([K_DIR, K_DIR, K_CHOICE]), la=None, ty=None, kids=[], inp=None, out=None))
+    ops, ndup, kinds = [], 0, []
+    form = rnd.randrange(7)
+    if form == 0:                       # two successive copies of one source
+        ops = [("D", g), ("D", g)]
+        ndup = 2
+    elif form == 1:                     # a copy of a sub-tree, then a copy of the copy
+        sub = rnd.randrange(len(cells))
+        ops = [("D", sub), ("D", "r0")]
+        ndup = 2
+    elif form == 2:                     # uses g twice under one target: the second merge reports duplicates
+        ops = [("M", tg, rnd.choice(["~", 1, 2]), g)] + ([("M", tg, rnd.choice(["~", 3]), g)] if rnd.random() < 0.6 else [])
+    elif form == 3:                     # a copy added under the target under a fresh or a taken key
+        key = rnd.choice([k for k, _ in cells[tg]["kids"]] + ["zz", "g"])
+        ops = [("D", g), ("A", tg, key.encode().hex(), "r0")]
+        if rnd.random() < 0.5:
+            ops += [("D", g), ("A", tg, rnd.choice(["zz", "yy"]).encode().hex(), "r1")]
+    elif form == 4:                     # merge into a copy, merge the result on
+        ops = [("D", tg), ("M", "r0", 1, g), ("M", tg, "~", "r0"), ("D", g)]
+    elif form == 5:                     # implicit cases, on the source or on a copy (the source must stay as it was)
+        ops = rnd.choice([[("F", g)], [("D", g), ("F", "r0"), ("D", "r0")], [("F", g), ("D", g), ("F", g)]])
+    else:                               # uses under a (possibly choice) target, perhaps twice (errors: no cases then), then FixChoice
+        ops = [("M", tg, rnd.choice(["~", 2]), g)] + ([("M", tg, "~", g)] if rnd.random() < 0.3 else []) + [("F", tg)]
+    for op in ops:
+        kinds.append(op[0])
+    return heap_enc(cells, ops, [g, tg]), len(cells), form, kinds
+
+
+def heap_leg(res, tier, rnd, violation, stats):
+    if not HAVE_HEAP:
+        stats["heap"] = "not linked (VERIF_PARTS)"
+        return 0
+    n = 2500 if tier == "quick" else 30000
+    shape = dict(leaf=0, leaflist=0, container=0, list=0, rpc=0, rpc_io_children=0, choice=0, case=0, shorthand_case=0)
+    lines, sizes, forms, opk = [], {}, {}, {}
+    for i in range(n):
+        line, sz, form, kinds = heap_case(random.Random(rnd.getrandbits(64)), shape)
+        lines.append(line)
+        b = min(sz // 5 * 5, 40)
+        sizes[b] = sizes.get(b, 0) + 1
+        forms[form] = forms.get(form, 0) + 1
+        for k in kinds:
+            opk[k] = opk.get(k, 0) + 1
+    go = run_go(lines)
+    ml = lib.run_ml(lines)
+    bad = shared = dup_errors = 0
+    for l, g, m in zip(lines, go, ml):
+        if " e=1 " in m or " e=2 " in m:
+            dup_errors += 1
+        if g != m:
+            bad += 1
+            violation("pointer graph after dup/add/merge differs between the heap model (coq/Model/Heap.v) and the implementation: "
+                      "impl=%s model=%s" % (g[:300], m[:300]),
+                      dict(kind="heap", heap_case=l, impl=g, model=m))
+    stats["heap"] = dict(cases=n, mismatches=bad, cells_hist=sizes, script_forms=forms, ops=opk, node_shapes=shape,
+                         cases_with_duplicate_errors=dup_errors)
+    return n
